@@ -34,7 +34,7 @@ REQUIRED = {"discipline.only_parser_error": {"quick": 40000, "thorough": 3000000
             "fault.reported_at_injected_line": {"quick": 1500, "thorough": 100000},
             "mutation.only_parser_error": {"quick": 8000, "thorough": 500000},
             "reuse.parse_after_failure_same_as_fresh": {"quick": 200, "thorough": 15000}}
-REQUIRED_SEEN = {"language_argument": ["empty_string", "omitted", "code"], "file_list_shape": ["no_feature_file_before_a_feature"], "faulty_document_form": ["lf", "crlf", "cr", "file_bom", "file_bom_language_comment", "file_cr", "file_bom_blank_first"], "free_text_shape": ["keyword_lookalike_without_colon"], "fault_kind": ["second_feature", "text_after_steps", "examples_outside_outline", "and_without_predecessor",
+REQUIRED_SEEN = {"language_argument": ["empty_string", "omitted", "code"], "sub_steps_language": ["de", "fr", "en", "ru"], "filename_argument": ["none", "str_relative", "str_absolute", "path_relative", "path_absolute"], "file_list_shape": ["no_feature_file_before_a_feature"], "faulty_document_form": ["lf", "crlf", "cr", "file_bom", "file_bom_language_comment", "file_cr", "file_bom_blank_first"], "free_text_shape": ["keyword_lookalike_without_colon"], "fault_kind": ["second_feature", "text_after_steps", "examples_outside_outline", "and_without_predecessor",
                                 "but_without_predecessor", "ragged_table_row", "malformed_tag", "second_background",
                                 "docstring_before_step", "table_before_step", "background_after_scenario", "tags_entry_malformed_tag",
                                 "tags_entry_tag_expected"],
@@ -396,7 +396,13 @@ def fault_injection(mon, P, rng, ndocs, i18n):
             shift = 0
             if form in ("lf", "crlf", "cr"):
                 t_form = t2 if form == "lf" else t2.replace("\n", "\r\n" if form == "crlf" else "\r")
-                k, val = call(P.parse_feature, t_form, lang)
+                # the filename that goes with the text: none, a string or a pathlib.Path, relative or absolute
+                import pathlib
+                fn_form = rng.choice(["none", "none", "str_relative", "str_absolute", "path_relative", "path_absolute"])
+                fn_arg = {"none": None, "str_relative": "features/x.feature", "str_absolute": "/proj/features/x.feature",
+                          "path_relative": pathlib.Path("features/x.feature"), "path_absolute": pathlib.Path("/proj/features/x.feature")}[fn_form]
+                mon.seen("filename_argument", fn_form)
+                k, val = call(P.parse_feature, t_form, lang) if fn_arg is None else call(P.parse_feature, t_form, lang, fn_arg)
             else:
                 body = t2
                 kwargs = {"language": lang}
@@ -562,6 +568,57 @@ def unusual_documents(mon, P):
                 check_text(mon, P, ep, text, monitor="discipline")
 
 
+def sub_step_faults(mon, P, rng, n, i18n):
+    """Sub-steps handed to context.execute_steps() from a step of a running feature are parsed like any other steps text --
+    in the language of the feature they run in: valid localized sub-steps run, a malformed table row among them is a ParserError
+    at its line."""
+    from ..lab.inproc import RunLab
+    lab = RunLab()
+    for i in range(n):
+        lang = rng.choice(["de", "fr", "en", "de", "ru"])
+        kws = i18n.languages[lang]
+        first = lambda kind: [k for k in kws[kind] if k.strip() != "*"][0]
+        feature_text = u"# language: %s\n%s: F\n  %s: S\n    %sk2 outer step\n" % (lang, kws["feature"][0], kws["scenario"][0], first("given"))
+        nsteps = rng.randint(1, 4)
+        lines, want_calls = [], []
+        for j in range(nsteps):
+            kind = "given" if j == 0 else rng.choice(["when", "then", "and", "but"])
+            lines.append(u"%sk%d sub step" % (first(kind), 4 + 2 * j))
+            want_calls.append("k%d sub step" % (4 + 2 * j))
+        fault_line = None
+        if i % 2 == 0:
+            at = rng.randrange(len(lines)) + 1
+            lines[at:at] = [u"  | a | b |", u"  | 1 | 2 | 3 |"]          # a row with one cell too many
+            fault_line = at + 2
+        sub = u"\n".join(lines) + u"\n"
+        seen = {}
+
+        def plug(state, context, text):
+            if text.startswith("k2"):
+                try:
+                    context.execute_steps(sub)
+                    seen["result"] = ("ok", None)
+                except P.ParserError as ex:
+                    seen["result"] = ("parser_error", ex.line)
+                except Exception as ex:      # (a failing sub-step surfaces as AssertionError: not expected here)
+                    seen["result"] = ("other", repr(ex))
+        try:
+            feature = P.parse_feature(feature_text, filename="sub.feature")
+            obs = lab.run({"features": [], "outcomes": {}}, args=[], features=[feature], step_plugins=[plug])
+        except Exception as ex:
+            mon.check("substeps.parsed_in_the_language_of_their_feature", False, lambda: dict(language=lang, error=repr(ex), feature=feature_text))
+            continue
+        mon.case(("sub-steps", lang, sub), True)
+        mon.seen("sub_steps_language", lang)
+        got = seen.get("result")
+        calls = [c[1] for c in obs.calls if c[1] != "k2 outer step"]
+        W = lambda **kw: dict(language=lang, feature=feature_text, sub_steps=sub, outcome=got, calls=calls, escaped=repr(obs.escaped), **kw)
+        if fault_line is None:
+            mon.check("substeps.parsed_in_the_language_of_their_feature", got == ("ok", None) and calls == want_calls, lambda: W(want_calls=want_calls))
+        else:
+            mon.check("substeps.fault_reported_at_its_line", got == ("parser_error", fault_line), lambda: W(want_line=fault_line))
+
+
 def run(spec, mon):
     if spec["shard"] % 4 == 3:
         # the documented environment option (read when behave.parser is imported): steps may end with a colon
@@ -581,6 +638,7 @@ def run(spec, mon):
     fault_injection(mon, P, rng, 12 if tier == "quick" else 700, i18n)
     parser_reuse(mon, P, rng, 20 if tier == "quick" else 1500, i18n)
     file_lists(mon, P, rng, 12 if tier == "quick" else 400, i18n)
+    sub_step_faults(mon, P, rng, 10 if tier == "quick" else 300, i18n)
     if spec["shard"] == 0:
         mon.sample({"soup": "@a b\n| 1 |\nScenario:\n  And x\n", "entry_point": "steps"})
         mon.sample({"fault": "second_feature", "text": "Feature: f\n  Scenario: s\n    Given x\nFeature: again\n", "expected_error_line": 4})
